@@ -170,21 +170,75 @@ def isIntOrDatetime : PyVal → Bool
   | .datetime _ => true
   | v => v.isInt
 
-/-! ### file-system facts (only consulted when `Torrent.path` is set) -/
+/-! ### the file system as an input (only consulted when `Torrent.path` is set)
 
-structure FileFact where
-  exists_ : Bool := false   -- os.path.exists(filepath)
-  isFile : Bool := false    -- os.path.isfile(filepath)
-  size : Nat := 0           -- utils.real_size(filepath)
-deriving Repr, Inhabited
+  `validate()` asks the OS about `self.path` and about `os.path.join(self.path, *files[i].path)`
+  with `os.path.isfile/isdir/exists` and `utils.real_size` — all of them `os.stat` in disguise.  The
+  oracle therefore holds, per path, *what `os.stat` answers*: the kind and size of the node the
+  path leads to (symlinks followed), or the errno of the failure, or "the path never reaches the
+  OS" (ValueError: embedded null byte).  The world is consistent: the same path gets the same
+  answer every time it is asked within one call of `validate()`. -/
+
+/-- errno of a failed `os.stat`; the first four are the ones `pathlib`'s `_ignore_error` swallows
+    (a rewrite of the cross-check to `Path.exists()/is_file()` behaves differently on the others) -/
+inductive Errno where
+  | ENOENT | ENOTDIR | EBADF | ELOOP
+  | ENAMETOOLONG | EACCES | EIO | EOVERFLOW | ESTALE
+  | other (n : Nat)
+deriving Repr, DecidableEq, Inhabited
+
+/-- what `os.stat(path)` answers -/
+inductive Stat where
+  | file (size : Nat)     -- S_ISREG (possibly through symbolic links)
+  | dir (size : Nat)      -- S_ISDIR
+  | other (size : Nat)    -- FIFO, socket, device, …
+  | err (e : Errno)       -- OSError(errno): missing, component not a directory, link loop, name or
+                          -- path too long, search permission denied, I/O error, …
+  | badPath               -- ValueError before the OS is asked (embedded null byte)
+deriving Repr, DecidableEq, Inhabited
+
+/-- `os.path.exists`: `try: os.stat(path) except (OSError, ValueError): return False` -/
+def Stat.exists : Stat → Bool
+  | .file _ | .dir _ | .other _ => true
+  | .err _ | .badPath => false
+
+/-- `os.path.isfile`: stat succeeds and `S_ISREG`; every failure is `False` -/
+def Stat.isFile : Stat → Bool
+  | .file _ => true
+  | _ => false
+
+/-- `os.path.isdir`: stat succeeds and `S_ISDIR`; every failure is `False` -/
+def Stat.isDir : Stat → Bool
+  | .dir _ => true
+  | _ => false
+
+/-- `utils.real_size(path)`: `os.path.isdir(os.path.realpath(path))` ⇒ sum over `os.walk`, else
+    `os.path.getsize(path)` with OSError ↦ ReadError; `realpath` of a path with an embedded null
+    byte raises ValueError.  The directory walk is not modelled: it is the distinct outcome
+    `model:real_size-of-directory`, and that `validate()` never gets there (it asks `isfile`
+    first) is part of the theorems, not of the totalisation. -/
+def realSize : Stat → Except ErrKind Nat
+  | .file n => pure n
+  | .other n => pure n
+  | .dir _ => throw (.internal "model:real_size-of-directory")
+  | .err _ => throw (.internal "ReadError")
+  | .badPath => throw (.internal "ValueError")
 
 structure FsOracle where
-  hasPath : Bool := false          -- `self.path is not None`
-  rootIsFile : Bool := false
-  rootIsDir : Bool := false
-  rootSize : Nat := 0
-  files : List FileFact := []      -- facts about `join(path, *info.files[i].path)`, by index
-deriving Repr, Inhabited
+  hasPath : Bool := false                          -- `self.path is not None`
+  root : Stat := .err .ENOENT                      -- `os.stat(self.path)`
+  fileStat : Nat → Stat := fun _ => .err .ENOENT   -- `os.stat(join(path, *info.files[i].path))`, by index
+deriving Inhabited
+
+/-- a failed `stat` seen through `os.path.exists/isfile/isdir`: the reason is invisible -/
+def Stat.blur : Stat → Stat
+  | .err _ => .err .ENOENT
+  | .badPath => .err .ENOENT
+  | s => s
+
+/-- the same world with every failure replaced by "no such file or directory" -/
+def FsOracle.blur (fs : FsOracle) : FsOracle :=
+  { hasPath := fs.hasPath, root := fs.root.blur, fileStat := fun i => (fs.fileStat i).blur }
 
 def noPath : FsOracle := {}
 
@@ -292,17 +346,28 @@ def forEnum (f : Nat → PyVal → Except ErrKind Unit) : Nat → List PyVal →
   | _, [] => pure ()
   | i, x :: r => do f i x; forEnum f (i + 1) r
 
+/-- `os.path.exists(p)`, `os.path.isfile(p)`, `utils.real_size(p)` in this order on one answer of
+    the OS: the size of a regular file, MetainfoError for everything else -/
+def statSize (st : Stat) : Except ErrKind Nat := do
+  if !st.exists then throw .metainfo                    -- `os.path.exists`: every failure is False
+  if !st.isFile then throw .metainfo                    -- `os.path.isfile`
+  realSize st                                           -- `utils.real_size(filepath)`
+
+/-- the `if self.path is not None:` block of the single-file branch -/
+def checkRootFile (len : Int) : Except ErrKind Unit := do
+  if !fs.root.isFile then throw .metainfo                -- `os.path.isfile(self.path)`
+  let size ← realSize fs.root                            -- `utils.real_size(self.path)`
+  if (size : Int) ≠ len then throw .metainfo             -- `safe_repr(info['length'])`
+
 /-- body of the second loop (`if self.path is not None`) for entry `i` -/
 def checkFileOnDisk (i : Nat) (fileinfo : PyVal) : Except ErrKind Unit := do
   let p ← getE fileinfo (.s "path")
   let comps ← iterE p                                 -- `*fileinfo['path']`
   if !joinable comps then throw (.internal "TypeError")
-  let fact := fs.files.getD i {}
-  if !fact.exists_ then throw .metainfo
-  if !fact.isFile then throw .metainfo
+  let size ← statSize (fs.fileStat i)                   -- the OS's answer for `filepath`
   let l ← getE fileinfo (.s "length")
   match numVal? l with
-  | some n => if (fact.size : Int) ≠ n then throw .metainfo   -- `safe_repr(fileinfo['length'])`
+  | some n => if (size : Int) ≠ n then throw .metainfo  -- `safe_repr(fileinfo['length'])`
   | none => throw (.internal "TypeError")
 
 /-- the rules shared by single-file and multi-file torrents -/
@@ -337,9 +402,7 @@ def checkSingle (md info : PyVal) (plen : Nat) : Except ErrKind Unit := do
     let exp := expPieces len pl
     -- the message formats `safe_repr(exp_piece_count)` and `piece_count <= sys.maxsize`
     if (pieceCount : Int) ≠ exp then throw .metainfo
-    if fs.hasPath then
-      if !fs.rootIsFile then throw .metainfo
-      if (fs.rootSize : Int) ≠ len then throw .metainfo      -- `safe_repr(info['length'])`
+    if fs.hasPath then checkRootFile fs len
 
 /-- the `elif 'files' in info:` branch -/
 def checkMulti (md info : PyVal) (plen : Nat) : Except ErrKind Unit := do
@@ -352,7 +415,7 @@ def checkMulti (md info : PyVal) (plen : Nat) : Except ErrKind Unit := do
   let exp := expPieces total pl
   if (pieceCount : Int) ≠ exp then throw .metainfo            -- `safe_repr(exp_piece_count)`
   if fs.hasPath then
-    if !fs.rootIsDir then throw .metainfo
+    if !fs.root.isDir then throw .metainfo                    -- `os.path.isdir(self.path)`
     forEnum (checkFileOnDisk fs) 0 files
 
 /-- `Torrent.validate()` -/
